@@ -117,6 +117,14 @@ reg("C12", "exploration",
     "be announced to observe, on_trait_change and static handlers with the right final value. Sampling.",
     BASE_NOTE, "DESIGN.md 3/C12")
 
+reg("C13", "exploration",
+    "Hypothesis class hierarchies x access histories vs an independent name resolver and per-kind policy automaton",
+    "Generated hierarchies over HasTraits/HasStrictTraits/HasPrivateTraits (1-3 levels, optional mixin base) with explicit and "
+    "wildcard traits of 8 kinds; histories of get/set/del on 40 names (matching 0, 1 or several prefixes), add_trait / "
+    "remove_trait and shadow/unshadow cycles; outcome class and value are compared with the model after every op. Sampling.",
+    BASE_NOTE + "Policy automaton calibrated against the documentation (Event: write-only, Constant: immutable, ReadOnly: one defining assignment ...).",
+    "DESIGN.md 3/C13")
+
 
 def main():
     props = [json.loads(l) for l in open(os.path.join(ROOT, "properties.jsonl"))]
